@@ -374,10 +374,21 @@ def _mac_input_trace_proof(prog, lib, fi, call_node) -> bool:
         if not a:
             return False
         d = unsnap(a[0])
-        if not (d.op == "slice" and d.args[1] is NONE and is_const(d.args[2]) and isinstance(cval(d.args[2]), int) and cval(d.args[2]) < 0 and d.args[3] is NONE):
+        if not (d.op == "slice" and d.args[1] is NONE and d.args[3] is NONE):
             return False
-        k = -cval(d.args[2])
         src = unsnap(d.args[0])
+        stop = unsnap(d.args[2])
+        if is_const(stop) and isinstance(cval(stop), int) and not isinstance(cval(stop), bool) and cval(stop) < 0:
+            k = -cval(stop)
+        elif stop.op == "bin" and stop.args[0] == "Sub" and is_const(unsnap(stop.args[2])) and isinstance(cval(unsnap(stop.args[2])), int) and cval(unsnap(stop.args[2])) > 0:
+            # X[:n - K] where n is the length of X: the size X was read with (an exact read) or len(X)
+            n_ = unsnap(stop.args[1])
+            mcs = meth_call(src)
+            if not ((n_.op == "len" and unsnap(n_.args[0]) is src) or (mcs and mcs[1] == "read" and len(mcs[2]) == 1 and unsnap(mcs[2][0]) is n_)):
+                return False
+            k = cval(unsnap(stop.args[2]))
+        else:
+            return False
         good = False
         for r in rds.values():
             if r.raw is None or unsnap(r.raw) is not src:
